@@ -167,6 +167,13 @@
 
     /*@extract yrs/src/ids.rs | - | struct IdRanges @*/
 
+    impl<T> IdRanges<T> {
+        pub closed spec fn view(&self) -> Seq<Ent<T>> {
+            self.0@
+        }
+    }
+
+
 
     // ------------------------------------------------------------------------------------------
     // impl Merge for ()  — the laws are proved, not assumed
@@ -185,6 +192,8 @@
         proof fn law_eq_sym(&self, b: &Self) { axiom_unit_eq(); }
 
         proof fn law_eq_trans(&self, b: &Self, c: &Self) { axiom_unit_eq(); }
+
+        proof fn law_merge_idem(&self, b: &Self) { axiom_unit_eq(); }
     }
 
     // ------------------------------------------------------------------------------------------
